@@ -43,7 +43,11 @@ def evaluate(sid, checks, tier):
         if rc != 0:
             res["error"] = "apply: " + o[-300:]
             return res
-        for ck in checks or [meta.get("detected_by") or meta["breaks_property"]]:
+        own = meta.get("detected_by") or meta["breaks_property"]
+        own = [x for x in own if x] if isinstance(own, list) else [own]
+        if meta.get("breaks_property") in own:
+            own = [meta["breaks_property"]]   # the claimed property's check suffices when it is among the detecting ones
+        for ck in checks or own[:1]:
             env = {"VERIF_REPO": wt, "VERIF_CACHE": cache, "VERIF_OUT": out, "VERIF_SEED": os.environ.get("VERIF_SEED", "0")}
             t0 = time.time()
             rc, o = sh([os.path.join(V, "check"), ck, tier], cwd=V, env=env)
